@@ -32,15 +32,24 @@ async def pass_all(_name, _sig, _context):
 
 class NfdRegister(PrefixRegisterer):
     _prefix_register_semaphore: aio.Semaphore = None
+    _semaphore_loop: aio.AbstractEventLoop = None
     _last_command_timestamp: int = 0
 
     def __init__(self):
         super().__init__()
-        self._prefix_register_semaphore = aio.Semaphore(1)
+
+    def _command_semaphore(self) -> aio.Semaphore:
+        # An asyncio lock belongs to the event loop it is first waited on in, and every connection
+        # (run_forever) runs in a loop of its own: use one semaphore per loop.
+        loop = aio.get_running_loop()
+        if self._semaphore_loop is not loop:
+            self._prefix_register_semaphore = aio.Semaphore(1)
+            self._semaphore_loop = loop
+        return self._prefix_register_semaphore
 
     async def register(self, name: enc.NonStrictName) -> bool:
         # Fix the issue that NFD only allows one packet signed by a specific key for a timestamp number
-        async with self._prefix_register_semaphore:
+        async with self._command_semaphore():
             for _ in range(10):
                 now = utils.timestamp()
                 if now > self._last_command_timestamp:
@@ -73,7 +82,7 @@ class NfdRegister(PrefixRegisterer):
 
     async def unregister(self, name: enc.NonStrictName) -> bool:
         # Fix the issue that NFD only allows one packet signed by a specific key for a timestamp number
-        async with self._prefix_register_semaphore:
+        async with self._command_semaphore():
             for _ in range(10):
                 now = utils.timestamp()
                 if now > self._last_command_timestamp:
